@@ -1,6 +1,7 @@
 package acmelib
 
 import (
+	"cmp"
 	"fmt"
 	"slices"
 	"strings"
@@ -332,7 +333,7 @@ func (se *SignalEnum) RemoveAllValues() {
 // Values returns a slice of all the enum values of the [SignalEnum].
 func (se *SignalEnum) Values() []*SignalEnumValue {
 	valueSlice := se.values.getValues()
-	slices.SortFunc(valueSlice, func(a *SignalEnumValue, b *SignalEnumValue) int { return a.index - b.index })
+	slices.SortFunc(valueSlice, func(a *SignalEnumValue, b *SignalEnumValue) int { return cmp.Compare(a.index, b.index) })
 	return valueSlice
 }
 
